@@ -145,6 +145,27 @@ def gen_proxy_script(rng, thorough):
     return "P %d %s" % (bits, " ".join(ops))
 
 
+def gen_dss_script(rng, thorough):
+    """the proxy around an evaluator that reads the current training set, the
+    training set being changed by the real vita::dss"""
+    bits = rng.choice([7, 8])
+    pool = key_pool(rng, bits)
+    hot = rng.sample(pool, min(len(pool), rng.randint(2, 5)))
+    gap = rng.randint(1, 3)
+    ops = []
+    gen = 0
+    for _ in range(rng.randint(6, 80 if thorough else 40)):
+        r = rng.random()
+        if r < 0.25:
+            gen += 1
+            ops.append("G,%d" % gen)
+        elif r < 0.28:
+            ops.append("Q")
+        else:
+            ops.append("E,%s" % kstr(rng.choice(hot)))
+    return "D %d %d %d %d %s" % (bits, rng.randint(4, 40), gap, rng.randint(1, 10 ** 6), " ".join(ops))
+
+
 # ------------------------------------------------------------ oracle
 def parse_fit(s):
     return () if s == "-" else tuple(int(w, 16) for w in s.split(","))
@@ -165,8 +186,10 @@ def parse_op(tok):
     o = p[0]
     if o in ("I", "E"):
         return o, (int(p[1], 16), int(p[2], 16)), tuple(int(w, 16) for w in p[3:])
-    if o in ("F", "X"):
+    if o in ("F", "X") or (o == "E" and len(p) == 3):
         return o, (int(p[1], 16), int(p[2], 16)), None
+    if o == "G":
+        return o, int(p[1]), None
     if o in ("W", "N"):
         return o, int(p[1]), None
     return o, None, None
@@ -176,7 +199,10 @@ def oracle(script, out):
     """judge the implementation's output line against the property.
     returns a list of (key, what)"""
     w = script.split()
-    kind, ops = w[0], [parse_op(t) for t in w[2:]]
+    kind = w[0]
+    if kind == "D":
+        return oracle_dss(script, out)
+    ops = [parse_op(t) for t in w[2:]]
     toks = out.split()
     bad = []
     if not toks or not toks[-1].startswith("D="):
@@ -231,10 +257,32 @@ def oracle(script, out):
     return bad
 
 
+def oracle_dss(script, out):
+    w = script.split()
+    toks = out.split()
+    if not toks or not toks[-1].startswith("D="):
+        return [("D:no-output", "the implementation produced no complete output: %r" % out[:200])]
+    bad = []
+    ti = 0
+    for n, tok in enumerate(w[5:]):
+        if tok[0] == "E":
+            got, direct = toks[ti][2:].split("|")
+            ti += 1
+            if got.split("/")[0] != direct:
+                bad.append(("proxy:not-transparent",
+                            "op %d: after the training set was changed by vita::dss, proxy(%s) returned %s while the "
+                            "wrapped evaluator called directly returns %s" % (n, tok[2:], got.split("/")[0], direct)))
+        elif tok[0] == "G":
+            ti += 1
+    return bad
+
+
 def nontrivial(script, out):
     """table: the history has a slot collision (two distinct keys stored in
     one slot) and a clear; proxy: a hit, a miss and a clear"""
     w = script.split()
+    if w[0] == "D":
+        return "g=1" in out and "/0" in out and "/1" in out
     ops = [parse_op(t) for t in w[2:]]
     if w[0] == "T":
         mask = (1 << int(w[1])) - 1
@@ -249,7 +297,8 @@ def nontrivial(script, out):
 def shrink(harness, script, key):
     """greedy removal of operations while the same violation persists"""
     w = script.split()
-    head, ops = w[:2], w[2:]
+    nh = 5 if w[0] == "D" else 2
+    head, ops = w[:nh], w[nh:]
 
     def fails(ops2):
         s = " ".join(head + ops2)
@@ -320,25 +369,30 @@ def run(ck):
         nt, npx = (6000, 2000) if ck.thorough else (700, 250)
         scripts += [gen_table_script(rng, ck.thorough) for _ in range(nt)]
         scripts += [gen_proxy_script(rng, ck.thorough) for _ in range(npx)]
+        scripts += [gen_dss_script(rng, ck.thorough) for _ in range(npx // 5)]
         if ck.thorough:
             # the real thing: 2^32 clear() calls between a store and a lookup
             scripts.append("T 2 I,1,5,3ff0000000000000 N,%d F,1,5 I,1,5,4000000000000000 F,1,5" % M32)
             scripts.append("T 2 I,1,5,3ff0000000000000 N,%d F,1,5" % (M32 - 1))
 
     hout, crashes = pc.run_harness_resilient(harness, scripts, timeout=3000)
-    rc, mout, merr = vv.run_lines(model, "\n".join(scripts) + "\n", timeout=3000)
-    if rc != 0 or len(mout) != len(scripts):
+    # the D scripts (real dss around the proxy) have no model side: oracle only
+    mscripts = [s for s in scripts if s[0] != "D"]
+    rc, mlines, merr = vv.run_lines(model, "\n".join(mscripts) + "\n", timeout=3000)
+    if rc != 0 or len(mlines) != len(mscripts):
         raise vv.BuildError("model driver failed: rc=%s %s" % (rc, merr[:500]))
+    it = iter(mlines)
+    mout = [next(it) if s[0] != "D" else None for s in scripts]
 
     hist = {"table_scripts": 0, "proxy_scripts": 0, "ops": 0, "finds": 0, "saveloads": 0, "proxy_evals": 0,
-            "proxy_hits": 0, "wrap_scripts": 0}
+            "proxy_hits": 0, "wrap_scripts": 0, "dss_scripts": 0}
     shrunk = set()
     for k, s in enumerate(scripts):
         ho, mo = hout[k], mout[k]
         ck.count()
         kind = s[0]
-        hist["table_scripts" if kind == "T" else "proxy_scripts"] += 1
-        hist["ops"] += len(s.split()) - 2
+        hist[{"T": "table_scripts", "P": "proxy_scripts", "D": "dss_scripts"}[kind]] += 1
+        hist["ops"] += len(s.split()) - (5 if kind == "D" else 2)
         if ho:
             hist["finds"] += ho.count("f=")
             hist["saveloads"] += ho.count("s=")
@@ -347,7 +401,7 @@ def run(ck):
         if " W," in s or "N,4294" in s:
             hist["wrap_scripts"] += 1
         if k < 2 or k in (len(FIXED_SCRIPTS), len(scripts) - 1):
-            ck.sample({"script": s[:400], "impl": (ho or "")[:400], "model": mo[:400]})
+            ck.sample({"script": s[:400], "impl": (ho or "")[:400], "model": (mo or "(oracle only)")[:400]})
         if ho is None or ho.startswith("CRASH"):
             small = shrink(harness, s, "sanitizer") if not (ck.replay_path or "sanitizer" in shrunk) else s
             shrunk.add("sanitizer")
@@ -366,7 +420,7 @@ def run(ck):
             ck.add_violation(key, what_small,
                              {"script": small, "impl": so[0], "script_unshrunk": s, "impl_unshrunk": ho, "model": mo,
                               "protocol": "see harness/h_cache.cc"})
-        if ho != mo:
+        if mo is not None and ho != mo:
             ck.add_diff({"script": s}, mo, ho)
     ck.coverage["histogram"] = hist
     return ck.finish(
